@@ -9,7 +9,7 @@ open Wire Keystream
 are the bytes read, then `rd`'s buffered plaintext, then the chunks in flight. -/
 def DirInv (C : Crypto) (s : Suite) (w rd : Conn) (sent recv : Bytes) : Prop :=
   ∃ items, Flight C s rd.inn rd.raw items w.out ∧ sent = recv ++ rd.input ++ appBytes items ∧
-    rd.hand = [] ∧ rd.inErr = none ∧ rd.p.s = s ∧ w.p.s = s ∧ w.outErr = none
+    rd.hand = [] ∧ rd.inErr = none ∧ rd.p.s = s ∧ w.p.s = s ∧ w.outErr = none ∧ NoSkip items
 
 def Inv (C : Crypto) (s : Suite) (σ : Sys) : Prop :=
   DirInv C s σ.a σ.b σ.sentAB σ.recvAB ∧ DirInv C s σ.b σ.a σ.sentBA σ.recvBA ∧ σ.ok = true
@@ -19,22 +19,22 @@ theorem DirInv.congr {C : Crypto} {s : Suite} {w rd w' rd' : Conn} {sent recv : 
     (h : DirInv C s w rd sent recv) (h1 : w'.out = w.out) (h2 : w'.p = w.p) (h3 : w'.outErr = w.outErr)
     (h4 : rd'.inn = rd.inn) (h5 : rd'.raw = rd.raw) (h6 : rd'.input = rd.input) (h7 : rd'.hand = rd.hand)
     (h8 : rd'.inErr = rd.inErr) (h9 : rd'.p = rd.p) : DirInv C s w' rd' sent recv := by
-  obtain ⟨items, hF, hs, hh, he, hp, hwp, hwe⟩ := h
+  obtain ⟨items, hF, hs, hh, he, hp, hwp, hwe, hns⟩ := h
   exact ⟨items, by rw [h4, h5, h1]; exact hF, by rw [h6]; exact hs, by rw [h7]; exact hh, by rw [h8]; exact he,
-    by rw [h9]; exact hp, by rw [h2]; exact hwp, by rw [h3]; exact hwe⟩
+    by rw [h9]; exact hp, by rw [h2]; exact hwp, by rw [h3]; exact hwe, hns⟩
 
 /-- `Write(d)` by `w`. -/
 theorem dir_write (C : Crypto) (s : Suite) (hs : s.WF) (hC : C.Laws s.tagLen s.macLen) (w rd : Conn)
     (sent recv sent2 recv2 d : Bytes) (h1 : DirInv C s w rd sent recv) (h2 : DirInv C s rd w sent2 recv2) :
     DirInv C s (write C w d).2 (deliver rd (write C w d).1) (sent ++ d) recv ∧
     DirInv C s (deliver rd (write C w d).1) (write C w d).2 sent2 recv2 := by
-  obtain ⟨items, hF, hsent, hh, he, hp, hwp, hwe⟩ := h1
-  obtain ⟨items', hF', hab, hoo⟩ := write_flight C w d (by rw [hwp]; exact hs) (by rw [hwp]; exact hC) hwe rd.inn rd.raw items
+  obtain ⟨items, hF, hsent, hh, he, hp, hwp, hwe, hns⟩ := h1
+  obtain ⟨items', hF', hab, hoo, hns'⟩ := write_flight C w d (by rw [hwp]; exact hs) (by rw [hwp]; exact hC) hwe rd.inn rd.raw items
     (by rw [hwp]; exact hF)
   rw [hwp] at hF'
   constructor
   · exact ⟨items ++ items', hF', by rw [appBytes_append, hab, hsent]; simp [deliver, List.append_assoc], hh, he, hp,
-      by rw [hoo.p]; exact hwp, by rw [hoo.outErr]; exact hwe⟩
+      by rw [hoo.p]; exact hwp, by rw [hoo.outErr]; exact hwe, noSkip_append _ _ hns hns'⟩
   · exact h2.congr rfl rfl rfl hoo.inn hoo.raw hoo.input hoo.hand hoo.inErr hoo.p
 
 /-- sending a KeyUpdate by `w` (TLS 1.3). -/
@@ -42,13 +42,13 @@ theorem dir_keyUpdate (C : Crypto) (s : Suite) (hs : s.WF) (hC : C.Laws s.tagLen
     (sent recv sent2 recv2 : Bytes) (req : Bool) (h1 : DirInv C s w rd sent recv) (h2 : DirInv C s rd w sent2 recv2) :
     DirInv C s (sendKeyUpdate C w req).2 (deliver rd (sendKeyUpdate C w req).1) sent recv ∧
     DirInv C s (deliver rd (sendKeyUpdate C w req).1) (sendKeyUpdate C w req).2 sent2 recv2 := by
-  obtain ⟨items, hF, hsent, hh, he, hp, hwp, hwe⟩ := h1
+  obtain ⟨items, hF, hsent, hh, he, hp, hwp, hwe, hns⟩ := h1
   obtain ⟨hF', hoo⟩ := sendKeyUpdate_flight C w req (by rw [hwp]; exact hs) (by rw [hwp]; exact hC) (by rw [hwp]; exact hv)
     rd.inn rd.raw items (by rw [hwp]; exact hF)
   rw [hwp] at hF'
   constructor
   · exact ⟨items ++ [Item.ku req], hF', by rw [appBytes_append, hsent]; simp [appBytes, deliver], hh, he, hp,
-      by rw [hoo.p]; exact hwp, by rw [hoo.outErr]; exact hwe⟩
+      by rw [hoo.p]; exact hwp, by rw [hoo.outErr]; exact hwe, noSkip_append _ _ hns (by simp [NoSkip])⟩
   · exact h2.congr rfl rfl rfl hoo.inn hoo.raw hoo.input hoo.hand hoo.inErr hoo.p
 
 /-- `Read(buf)` with `len(buf) = n` by `rd`: no error; the bytes returned extend what was received
@@ -59,24 +59,24 @@ theorem dir_read (C : Crypto) (s : Suite) (hs : s.WF) (hC : C.Laws s.tagLen s.ma
     DirInv C s (deliver w (read C rd n).sent) (read C rd n).c sent (recv ++ (read C rd n).data) ∧
     DirInv C s (read C rd n).c (deliver w (read C rd n).sent) sent2 recv2 ∧
     (0 < n → sent ≠ recv → (read C rd n).data ≠ []) := by
-  obtain ⟨items, hF, hsent, hh, he, hp, hwp, hwe⟩ := h1
-  obtain ⟨ritems, hRF, hrsent, hrh, hre, hrp, hrwp, hrwe⟩ := h2
+  obtain ⟨items, hF, hsent, hh, he, hp, hwp, hwe, hns⟩ := h1
+  obtain ⟨ritems, hRF, hrsent, hrh, hre, hrp, hrwp, hrwe, hrns⟩ := h2
   -- the other direction as a property of (rd's outgoing half, records rd emitted while reading)
   let Q : Half → List Bytes → Prop := fun out snt =>
-    ∃ it, Flight C s w.inn (w.raw ++ snt.flatten) it out ∧ appBytes it = appBytes ritems
+    ∃ it, Flight C s w.inn (w.raw ++ snt.flatten) it out ∧ appBytes it = appBytes ritems ∧ NoSkip it
   have hQ : s.vers = v13 → ∀ out snt, Q out snt → Q (rekey C (encrypt C s out tHs (keyUpdateMsg false)).2)
       (snt ++ [(encrypt C s out tHs (keyUpdateMsg false)).1]) := by
-    intro hv out snt ⟨it, hFl, hab⟩
-    refine ⟨it ++ [.ku false], ?_, by rw [appBytes_append, hab]; simp [appBytes]⟩
+    intro hv out snt ⟨it, hFl, hab, hnsi⟩
+    refine ⟨it ++ [.ku false], ?_, by rw [appBytes_append, hab]; simp [appBytes], noSkip_append _ _ hnsi (by simp [NoSkip])⟩
     have := Flight.snoc_ku C s hs hC hv hFl false
     simpa [List.append_assoc] using this
-  have hq : Q rd.out [] := ⟨ritems, by simpa using hRF, rfl⟩
-  obtain ⟨herr, rest, hdata, hF', hh', he', hp', hoe', ⟨it, hFl, hab⟩, hprog, _⟩ :=
-    read_flight C s hs Q hQ rd n items w.out hF hh he hp hq
+  have hq : Q rd.out [] := ⟨ritems, by simpa using hRF, rfl, hrns⟩
+  obtain ⟨herr, rest, hdata, hF', hh', he', hp', hoe', ⟨it, hFl, hab, hnsi⟩, _, ⟨pre, hpre⟩, hprog, _⟩ :=
+    read_flight C s hs Q hQ rd n items w.out hF hh he hp hq (okRuns_of_noSkip items hns _)
   refine ⟨herr, ?_, ?_, ?_⟩
   · exact ⟨rest, hF', by rw [hsent, List.append_assoc recv, hdata]; simp [List.append_assoc], hh', he',
-      by rw [hp']; exact hp, hwp, hwe⟩
-  · exact ⟨it, hFl, by rw [hrsent, hab]; rfl, hrh, hre, hrp, by rw [hp']; exact hp, by rw [hoe']; exact hrwe⟩
+      by rw [hp']; exact hp, hwp, hwe, noSkip_suffix pre rest (by rw [← hpre]; exact hns)⟩
+  · exact ⟨it, hFl, by rw [hrsent, hab]; rfl, hrh, hre, hrp, by rw [hp']; exact hp, by rw [hoe']; exact hrwe, hnsi⟩
   · intro hn hne
     apply hprog hn
     intro h
@@ -87,8 +87,8 @@ theorem dir_read (C : Crypto) (s : Suite) (hs : s.WF) (hC : C.Laws s.tagLen s.ma
 theorem step_inv (C : Crypto) (s : Suite) (hs : s.WF) (hC : C.Laws s.tagLen s.macLen) (σ : Sys) (op : Op)
     (h : Inv C s σ) : Inv C s (step C σ op) := by
   obtain ⟨hab, hba, hok⟩ := h
-  have haoe : σ.a.outErr = none := hab.choose_spec.2.2.2.2.2.2
-  have hboe : σ.b.outErr = none := hba.choose_spec.2.2.2.2.2.2
+  have haoe : σ.a.outErr = none := hab.choose_spec.2.2.2.2.2.2.1
+  have hboe : σ.b.outErr = none := hba.choose_spec.2.2.2.2.2.2.1
   have haps : σ.a.p.s = s := hab.choose_spec.2.2.2.2.2.1
   have hbps : σ.b.p.s = s := hba.choose_spec.2.2.2.2.2.1
   cases op with
@@ -148,7 +148,7 @@ theorem inv_init (C : Crypto) (s : Suite) (a b : Conn) (ha : Fresh s a) (hb : Fr
     Inv C s { a := a, b := b } := by
   obtain ⟨ar, ai, ah, aie, aoe, ap⟩ := ha
   obtain ⟨br, bi, bh, bie, boe, bp⟩ := hb
-  refine ⟨⟨[], ?_, ?_, bh, bie, bp, ap, aoe⟩, ⟨[], ?_, ?_, ah, aie, ap, bp, boe⟩, rfl⟩
+  refine ⟨⟨[], ?_, ?_, bh, bie, bp, ap, aoe, trivial⟩, ⟨[], ?_, ?_, ah, aie, ap, bp, boe, trivial⟩, rfl⟩
   · show Flight C s b.inn b.raw [] a.out; rw [br]; exact Flight.nil hab
   · show ([] : Bytes) = [] ++ b.input ++ appBytes []; rw [bi]; rfl
   · show Flight C s a.inn a.raw [] b.out; rw [ar]; exact Flight.nil hba
